@@ -157,7 +157,7 @@ def run(tier: str) -> int:
         lines = log.splitlines()
         nrows = len([s for s in range(c["total"] + 1) if (log_iv > 0 and s % log_iv == 0) or (log_iv < 0 and s == -log_iv)])
         header = lines[0] if lines else ""
-        if lines and (lines.count(header) != 1 or "Step" not in header):
+        if lines and lines.count(header) != 1:
             rep.violation(f"header:{tag}", f"{kind}: log header written {lines.count(header)} times (plan {c['plan']})", ctx)
         elif len(lines) != (nrows + 1 if (nrows or lines) else 0):
             rep.violation(f"log-rows:{tag}", f"{kind}: log has {len(lines) - 1} rows, schedule says {nrows} (plan {c['plan']})", ctx)
